@@ -178,7 +178,8 @@ class BGPLS(NLRI):
                 descriptor['value'] = str(netaddr.IPAddress(int(binascii.b2a_hex(value), 16)))
             else:
                 descriptor['type'] = _type
-                descriptor['value'] = binascii.b2a_hex(value)
+                # (hexadecimal TEXT: the decoded message goes to json.dump)
+                descriptor['value'] = binascii.b2a_hex(value).decode('ascii')
             descriptor_list.append(descriptor)
         return proto_id, identifier, descriptor_list
 
